@@ -393,6 +393,9 @@ func (c *stratChecker) Finish(x *Exec) *Violation {
 }
 
 func shapeOf(s *Scenario) string {
+	if len(s.History) == 0 {
+		return fmt.Sprintf("%s/%s/stall%d/%v", s.Family, s.Policy, s.StallPm, sortedKeys(s.Rates))
+	}
 	k := 0
 	st := 0
 	for _, m := range s.Pkg.Mods {
